@@ -117,8 +117,8 @@ def main():
 def finish(sid, src, meta, demo):
     dst = os.path.join(V, 'seeded', sid)
     os.makedirs(dst, exist_ok=True)
-    for f in ('patch.diff', 'README.txt', demo):
-        if f and os.path.exists(os.path.join(src, f)):
+    for f in sorted(set(['patch.diff', 'README.txt', demo] + [x for x in os.listdir(src) if x.endswith(('.h', '.hpp', '.sh', '.cpp'))])):
+        if f and os.path.isfile(os.path.join(src, f)):
             shutil.copyfile(os.path.join(src, f), os.path.join(dst, f))
     rd = os.path.join(src, 'README.txt')
     if os.path.exists(rd):
